@@ -260,12 +260,14 @@ impl Node {
                 return Err(maybec.unwrap_err());
             };
 
+            // Mark the class as seen before descending into it, so that classes which include
+            // each other (or themselves) are loaded only once instead of recursing forever.
+            seen.push(cls.to_string());
+
             // render class so we pick up further classes included in it
             c.render_impl(r, seen, root)?;
             // NOTE(sg): we don't need to merge here, since we've already mergeed into root as part
             // of the recursive call to `render_impl()`
-
-            seen.push(cls.to_string());
         }
 
         // merge root into self, then update self with merged values
